@@ -147,7 +147,8 @@ PROPS = {
                      "with tamper enumeration on real keys",
     },
     "C10": {
-        "cmd": "c10", "seed": 110, "gentie": 0, "corr": ["Parser"], "coq_dirs": ["Parser", "Hash", "Jws", "Corr/Parser", "GenTie/Parser", "Props/C10"],
+        "cmd": "c10", "seed": 110, "gentie": 0, "corr": ["Parser", "ViewOfBytes"], "coq_dirs": ["Parser", "Hash", "Jws", "Json", "Corr/Parser", "Corr/ViewOfBytes", "GenTie/Parser", "Props/C10"],
+        "gens": [{"name": "gen_view", "pkg": "./cmd/gen_view"}],
         "rule": "valid create/update/recover/deactivate requests (keys of all types, both hash algorithms) and signed-data level "
                 "variants (nonce sizes, key re-use, equal commitments, other revealed key, other signed suffix, hash mismatch, no delta, "
                 "disabled action) mutated field by field (delete/null/wrong type/empty/over-long/garbage/unsupported code), under 16 "
@@ -164,7 +165,13 @@ PROPS = {
                       "allowed signature algorithm and key curve, nonce of NonceSize bytes, enabled and valid patches, reveal value = hash "
                       "of the signing key, no re-commit; limits inclusive and exact; the four limit guards are re-translated from source "
                       "and each reads exactly its own parameter. Model tied to the real parser by differential runs over mutated "
-                      "requests and boundary configurations. Partial: absence of panics is observed under recover.",
+                      "requests and boundary configurations. The view itself is computed INSIDE Coq from the raw request bytes "
+                      "(Json/GoJson.v: model of encoding/json and of go-jose's decoder, struct decoding incl. case folding, duplicate "
+                      "members, null, type errors, int64 fields, marshal + JCS of the decoded structs; Parser/ViewOfBytes.v) and the "
+                      "rules theorems are restated on request bytes; the decoder model is tied to the real decoders by gen_view "
+                      "(every generated request, mutated at value and at text level, plus arbitrary bytes: Coq view = Go view and "
+                      "Coq verdict = real parser verdict in intake and batch mode). Remaining facts: per-patch validator verdicts, the "
+                      "anchor-origin plug-in, the time validator. Partial: absence of panics is observed under recover.",
         "level_note": "Trusted: Coq kernel + vm_compute (SHA-256/512, base64url, varint evaluated inside Coq); harness view builder; go2v.",
         "technique": "Coq proof (acceptance implies rules) over a parser model with concrete hashing + source-regenerated limit guards + "
                      "vm_compute correspondence on mutated requests x boundary configurations",
@@ -342,6 +349,7 @@ PROPS = {
     },
     "C16": {
         "cmd": "c16", "seed": 116, "gentie": 0, "corr": ["Writer"],
+        "gens": [{"name": "gen_writer_race", "pkg": "./cmd/gen_writer_race", "race": True}],
         "coq_dirs": ["Writer", "Corr/Writer", "GenTie/Cutter", "Props/C16"],
         "rule": "schedules of 1-7 ticks (monitor / batch timeout) driven through Writer.VerifStep with client Adds between ticks and "
                 "immediately before the k-th queue call of a tick (wrapper around the real MemQueue), CAS write failures at the k-th "
@@ -356,8 +364,15 @@ PROPS = {
                       "of the writer thread and client Adds (all interleavings) with failure flags (all fault placements): conservation "
                       "(permutation of accepted = queue + in flight + anchored + expired), exactly-once, batch shape (size, single "
                       "version, one per suffix, short batch only when forced or at a version boundary), FIFO head/tail lemmas; the "
-                      "cutter arithmetic is re-translated from source and proved equal. The real Writer is stepped through a verif hook "
-                      "and its recorded call trace replayed on the model. Partial: true concurrency (races, tickers) is not modelled.",
+                      "cutter arithmetic is re-translated from source and proved equal. Progress (Writer/Liveness.v): the writer thread's "
+                      "continuation is determined; every tick completes; a failure-free forced tick strictly shrinks the queue; from any "
+                      "reachable state, finishing the tick and then at most (operations accepted) failure-free batch timeouts leave every "
+                      "accepted operation in exactly one anchored batch or discarded as expired; failing ticks are transparent and only "
+                      "delay; monitor ticks alone / a permanently failing anchor writer never drain (hypotheses needed). The real Writer "
+                      "is stepped through a verif hook and its recorded call trace replayed on the model. Partial: true concurrency "
+                      "(goroutine scheduling, tickers) is not in a theorem; it is exercised by a soak of real writers under the race "
+                      "detector (gen_writer_race: concurrent clients, random CAS / anchor failures, Stop during processing) with "
+                      "exactly-once, batch-shape and no-race oracles on the implementation.",
         "level_note": "Trusted: Coq kernel + vm_compute; harness (wrapper queue, failing CAS/anchor writer); go2v; hook batch.Writer.VerifStep "
                       "(build tag verif). Handler abstracted by its accounting contract (verified separately in C13).",
         "technique": "Coq invariant proof over all traces of an event-level step function + vm_compute replay of recorded call traces of "
